@@ -9,6 +9,7 @@ tbl = "| seeded change (`/verif/seeded/<dir>`) | what it needs to manifest | res
 p = '/verif/DESIGN.md'
 s = open(p).read()
 a = s.index("| seeded change (`/verif/seeded/<dir>`)")
-b = s.index("---------------------------------------------------------------------------------------------------\n\n## Appendix A")
+ends = [s.find(m, a) for m in ("### 11.5 ", "### 11.6 ", "### 11.7 ", "### 11.8 ", "---------------------------------------------------------------------------------------------------\n\n## Appendix A")]
+b = min(e for e in ends if e >= 0)
 open(p, 'w').write(s[:a] + tbl + "\n\n" + s[b:])
 print(len(rows), "rows")
